@@ -227,7 +227,7 @@ pub struct Gen {
     pub cfg: RunCfg,
     sched: Rng,
     fault: Rng,
-    queue: VecDeque<Step>,
+    pub queue: VecDeque<Step>,
     pub emitted: usize,
     /// events never published (publish failure)
     pub withheld: BTreeSet<EvRef>,
@@ -249,6 +249,11 @@ pub struct Gen {
     /// announce encrypted media in messages (C17)
     pub media: bool,
     pub hostile_hook: Option<fn(&mut Gen, &mut World) -> Option<Step>>,
+    /// events the generator does not hand over before this many steps have been emitted (a relay
+    /// that is slow for one event); quiescence releases everything
+    pub hold_until: std::collections::BTreeMap<EvRef, usize>,
+    /// recipients take their time over invitations (several can be pending at once) (C08, C16)
+    pub slow_accept: bool,
 }
 
 impl Gen {
@@ -272,6 +277,8 @@ impl Gen {
             reprocess_welcomes: false,
             media: false,
             hostile_hook: None,
+            hold_until: std::collections::BTreeMap::new(),
+            slow_accept: false,
         }
     }
 
@@ -327,6 +334,7 @@ impl Gen {
             .iter()
             .filter(|e| !w.delivered[node].contains_key(&e.origin))
             .filter(|e| !(e.creator == node && e.kind != EvKind::Commit && self.sched_skip_own_echo(e)))
+            .filter(|e| self.hold_until.get(&e.origin).map(|t| self.emitted >= *t || self.emitted >= self.cfg.steps).unwrap_or(true))
             .filter(|e| w.gview(node, e.g).is_some() && self.deliverable(w, node, e))
             .map(|e| e.origin)
             .collect()
@@ -484,7 +492,8 @@ impl Gen {
                 self.emitted += 1;
                 return Some(s);
             }
-            if self.welcome_seen.contains(&pw.origin) && !self.welcome_decided.contains(&pw.origin) && self.sched.chance(2, 3) {
+            let (dn, dd) = if self.slow_accept { (1, 8) } else { (2, 3) };
+            if self.welcome_seen.contains(&pw.origin) && !self.welcome_decided.contains(&pw.origin) && self.sched.chance(dn, dd) {
                 self.welcome_decided.insert(pw.origin);
                 let op = if self.sched.chance(1, 20) { Op::DeclineWelcome { w: pw.origin } } else { Op::AcceptWelcome { w: pw.origin } };
                 let s = self.mk(w, pw.recipient, 0, op);
